@@ -122,6 +122,9 @@ PIPELINES = [
     (["compute_tip_position", "no_such_step"], None),
     (["compute_tip_position", "correct_tip_offset", "correct_force_slope"],
      {"correct_force_slope": {"strategy": "bogus"}}),
+    (["compute_tip_position", "correct_force_offset", "correct_tip_offset"],
+     {"correct_tip_offset": {"methd": "fit_constant_line"}}),          # misspelled option name
+    (["compute_tip_position", "correct_force_offset"], {"correct_force_offset": {"region": "all"}}),  # step takes no options
 ]
 
 
